@@ -109,6 +109,7 @@ Definition reads (h : hkind) : list fld :=
   match h with
   | HStrict | HLenient => [FS; FI; FB; FD]
   | HConst => []
+  | HAck => []
   | HInt => [FI]
   | HBytes => [FD]
   end.
@@ -124,6 +125,7 @@ Proof.
     unfold handler. now rewrite E.
   - pose proof (H FD (or_introl eq_refl)) as E. simpl in E. injection E as E.
     unfold handler. now rewrite E.
+  - reflexivity.
 Qed.
 
 (* ---------- closed form of the specification --------------------------------- *)
